@@ -295,6 +295,12 @@ func cmdC03(args []string) {
 		if hasRawAnywhere(v) {
 			continue // raw data is not a signature type: dynamic values only (C02)
 		}
+		if typeHasO(v.T) {
+			// an object reference nested in a container: the harness has no Go value for it; the
+			// signature-driven reader must still return exactly the documented bytes
+			c03SigReaderOnly(res, v, "nested-o", distinct)
+			continue
+		}
 		sh := shape(v.T, v.V)
 		shapes[sh]++
 		c03Vector(res, v, sh, distinct, proto, agree)
@@ -309,6 +315,7 @@ func cmdC03(args []string) {
 	res.SetExtra("generated_codecs_agree", agree)
 	res.SetExtra("decode_into_library_go_type", c03TypedStats)
 	res.SetExtra("held_reader_results_rechecked", c03Rechecked)
+	res.SetExtra("decodes_into_used_destination", c03UsedN)
 	emit(res)
 }
 
@@ -430,6 +437,46 @@ func c03Vector(res *hlib.Result, v *Vector, sh string, distinct map[string]bool,
 			}
 		}
 	}
+	// (3b) the reflection decoder into a destination that is not fresh: a variable that received another
+	// value of the same type before (the `var x T; for { Decode(&x) }` pattern).  What is decoded is a
+	// function of the bytes; for lists the earlier length must not survive.  (Types containing maps are
+	// left out: like encoding/json the decoder fills an existing map without emptying it, and the
+	// statement does not say which it should be.)
+	freshOK := false
+	{
+		fresh := reflect.New(gt)
+		var ferr error
+		if guard(func() { ferr = encoding.NewDecoder(encoding.DefaultCap(), newIn(canon)).Decode(fresh.Interface()) }) == nil && ferr == nil {
+			freshOK = eqValue(fresh.Elem(), gv)
+		}
+	}
+	if !typeHasMap(v.T) && freshOK { // (what a fresh destination already gets wrong is reported above)
+		key := gt.String()
+		if prev, ok := c03UsedDst[key]; ok {
+			res.Evaluations++
+			var derr error
+			if p := guard(func() {
+				derr = encoding.NewDecoder(encoding.DefaultCap(), newIn(canon)).Decode(prev.Interface())
+			}); p != nil {
+				res.Fail("reflect-decode/panic/used-destination-"+sh, fmt.Sprint(p), mkCase(v, canon, sh))
+			} else if derr != nil {
+				res.Fail("reflect-decode/error/used-destination-"+sh, derr.Error(), mkCase(v, canon, sh))
+			} else if !eqValue(prev.Elem(), gv) {
+				res.Fail("reflect-decode/value/used-destination-"+sh,
+					fmt.Sprintf("decoded into a variable that held another value: %#v, expected %#v", prev.Elem().Interface(), gv.Interface()), mkCase(v, canon, sh))
+			}
+			c03UsedN++
+		}
+		// keep the largest value seen for the type, so that later, smaller ones meet leftovers
+		keep := reflect.New(gt)
+		if guard(func() {
+			err = encoding.NewDecoder(encoding.DefaultCap(), newIn(canon)).Decode(keep.Interface())
+		}) == nil && err == nil {
+			if old, ok := c03UsedDst[key]; !ok || sizeOf(keep.Elem()) >= sizeOf(old.Elem()) {
+				c03UsedDst[key] = keep
+			}
+		}
+	}
 	// (4) the Go representation the library itself derives from the signature (Type.Type(), what a proxy
 	// decodes a remote value into): the reflection decoder must recover the same value in it - same scalar
 	// kinds, same numbers - and the reflection encoder must give the documented bytes back
@@ -440,6 +487,47 @@ func c03Vector(res *hlib.Result, v *Vector, sh string, distinct map[string]bool,
 }
 
 var c03TypedStats = map[string]int{}
+
+var (
+	c03UsedDst = map[string]reflect.Value{}
+	c03UsedN   int
+)
+
+func typeHasMap(t *TypeTree) bool {
+	if t == nil {
+		return false
+	}
+	if t.K == "map" {
+		return true
+	}
+	if typeHasMap(t.E) {
+		return true
+	}
+	for _, m := range t.Ms {
+		if typeHasMap(m) {
+			return true
+		}
+	}
+	return false
+}
+
+func sizeOf(v reflect.Value) int {
+	switch v.Kind() {
+	case reflect.Slice:
+		n := v.Len()
+		for i := 0; i < v.Len(); i++ {
+			n += sizeOf(v.Index(i))
+		}
+		return n
+	case reflect.Struct:
+		n := 0
+		for i := 0; i < v.NumField(); i++ {
+			n += sizeOf(v.Field(i))
+		}
+		return n
+	}
+	return 0
+}
 
 type heldBytes struct {
 	b, enc []byte
@@ -609,6 +697,58 @@ func diffLoose(a, b reflect.Value, path string) string {
 		return ""
 	}
 	return ""
+}
+
+func typeHasO(t *TypeTree) bool {
+	if t == nil {
+		return false
+	}
+	if t.K == "o" {
+		return true
+	}
+	if typeHasO(t.E) || typeHasO(t.Key) || typeHasO(t.Val) {
+		return true
+	}
+	for _, m := range t.Ms {
+		if typeHasO(m) {
+			return true
+		}
+	}
+	return false
+}
+
+func c03SigReaderOnly(res *hlib.Result, v *Vector, sh string, distinct map[string]bool) {
+	sig := str(v.Sig)
+	sr, perr := decSigReader(sig)
+	if perr != nil {
+		res.Evaluations++
+		res.Fail("sigreader/parse-error/"+sh, "signature.Parse refuses the signature: "+perr.Error(), mkCase(v, nil, sh))
+		return
+	}
+	for _, e := range v.Encs {
+		enc := toBytes(e)
+		distinct[sig+"|"+string(enc)] = true
+		for _, tail := range tails {
+			in := cat(enc, tail)
+			res.Evaluations++
+			var got interface{}
+			var unread int
+			var derr error
+			if p := guard(func() { got, unread, derr = sr(in) }); p != nil {
+				res.Fail("sigreader/panic/"+sh, fmt.Sprint(p), mkCase(v, in, sh))
+			} else if derr != nil {
+				res.Fail("sigreader/error/"+sh, "TypeReader refuses a valid encoding: "+derr.Error(), mkCase(v, in, sh))
+			} else {
+				b, _ := got.([]byte)
+				if unread != len(tail) {
+					res.Fail("sigreader/consumed/"+sh, fmt.Sprintf("consumed %d bytes, the encoding has %d", len(in)-unread, len(enc)), mkCase(v, in, sh))
+				}
+				if !bytes.Equal(b, enc) {
+					res.Fail("sigreader/bytes/"+sh, fmt.Sprintf("returned %d bytes, consumed encoding is %d bytes", len(b), len(enc)), mkCase(v, in, sh))
+				}
+			}
+		}
+	}
 }
 
 func typeHasM(t *TypeTree) bool {
